@@ -1,4 +1,5 @@
 import MdsVerif.Model.Lis
+import MdsVerif.GenFact
 /-!
 # `Model.Lis` in its pinned form
 
@@ -35,12 +36,11 @@ theorem lisStep_def (strict : Bool) (cmp : α → α → Int) (vs : List α) (s 
         let prev ← setAt s.prev i p
         let tails ← setAt s.tails replaceIdx i
         pure { tails := tails, prev := prev }) := by
-  have e1 : ∀ c : Int, Gen.Slice.lisFast c = decide (c > 0) := fun _ => rfl
-  have e2 : ∀ c : Int, Gen.Slice.lndsFast c = decide (c ≥ 0) := fun _ => rfl
-  have e3 : ∀ r : Nat, (Gen.Slice.lisFirst r = true) = (r = 0) := by
-    intro r; unfold Gen.Slice.lisFirst; rw [decide_eq_true_eq]; apply propext; omega
-  have e4 : ∀ r : Nat, (Gen.Slice.lndsFirst r = true) = (r = 0) := by
-    intro r; unfold Gen.Slice.lndsFirst; rw [decide_eq_true_eq]; apply propext; omega
+  -- extensional pins (`gen_fact`): `c > 0` / `0 < c` / `!(c <= 0)`, `r == 0` / `r < 1` all satisfy them
+  have e1 : ∀ c : Int, Gen.Slice.lisFast c = decide (c > 0) := by gen_fact Gen.Slice.lisFast
+  have e2 : ∀ c : Int, Gen.Slice.lndsFast c = decide (c ≥ 0) := by gen_fact Gen.Slice.lndsFast
+  have e3 : ∀ r : Nat, (Gen.Slice.lisFirst r = true) = (r = 0) := by gen_fact Gen.Slice.lisFirst
+  have e4 : ∀ r : Nat, (Gen.Slice.lndsFirst r = true) = (r = 0) := by gen_fact Gen.Slice.lndsFirst
   have e5 : Gen.Slice.lisUsesBisectRight = false := rfl
   have e6 : Gen.Slice.lndsUsesBisectRight = true := rfl
   unfold lisStep
